@@ -151,6 +151,7 @@ def run(chk: Check) -> None:
     run_slot_store_order(chk, ix)
     run_glue_unbox_borrows(chk, ix)
     run_preallocated_fill_bound(chk, ix)
+    run_refcount_edge_sets(chk, ix)
     base = ix.cls(OP)
     ops = [c for c in base.all_subclasses() if c.module.name == "mypyc.ir.ops" and "sources" in c.methods and not any(isinstance(n, ast.Raise) for n in c.methods["sources"].node.body)]
     if len(ops) < 35:
@@ -1031,3 +1032,38 @@ def run_preallocated_fill_bound(chk: Check, ix) -> None:
         r20.violation(key, h.loc(), "the helper admits every sequence type (lists included) and ForSequence.init drops the given length for mutable sequences (`self.length_reg = None`: the live length is re-read on every iteration): when the body of the comprehension grows the list, stores go past the preallocated result (CPyList_SetItemUnsafe does not check); when it shrinks the list, trailing slots stay NULL")
     else:
         r20.ok(key, h.loc())
+
+
+def run_refcount_edge_sets(chk: Check, ix) -> None:
+    """R06.21: on a CFG edge, what is released is judged by the source's borrowed set, what is acquired by both."""
+    r21 = chk.rule("R06.21", "transform/refcount.py computes the references to release on a branch edge as source_live - target_live - source_borrowed and those to acquire as (source_borrowed - target_borrowed) & target_live; borrowed-ness is a must-analysis, so the target's set can be smaller than the source's at a join and must not stand in for it. Every call between the module's functions passes, for a parameter named source_* / target_*, an argument of the same side (a local or parameter with the same prefix, or `pre_X[target, 0]` / `pre_X[source...]` style look-ups naming that side)", floor=4)
+    m = ix.module("mypyc.transform.refcount")
+    n = 0
+    sides = ("source", "target")
+
+    def side_of(e: ast.expr) -> str | None:
+        t = norm(e)
+        for s_ in sides:
+            if t.startswith(s_ + "_") or f"[{s_}" in t or t == s_:
+                return s_
+        return None
+    for f in m.functions.values():
+        for c in ast.walk(f.node):
+            if not (isinstance(c, ast.Call) and isinstance(c.func, ast.Name) and c.func.id in m.functions and c.func.id != f.name):
+                continue
+            callee = m.functions[c.func.id]
+            params = [a.arg for a in callee.node.args.posonlyargs + callee.node.args.args]
+            pairs = list(zip(params, c.args)) + [(k.arg, k.value) for k in c.keywords if k.arg]
+            for p, a in pairs:
+                ps = next((s_ for s_ in sides if p.startswith(s_ + "_")), None)
+                if ps is None:
+                    continue
+                n += 1
+                key = f"{f.name} -> {callee.name}({p}=...): the argument belongs to the {ps} side"
+                as_ = side_of(a)
+                if as_ is None or as_ == ps:
+                    r21.ok(key, f.loc(c))
+                else:
+                    r21.violation(key, f.loc(c), f"parameter `{p}` receives `{norm(a)}`, a value of the {as_} block: on an edge into a join block the {as_} set differs from the {ps} set (borrowed-ness is a must-analysis), so a parameter that still holds the caller's reference is released (or a needed acquire is skipped) on that edge only")
+    if n < 4:
+        raise AnalysisError(f"refcount.py: only {n} source_/target_ arguments found in calls between its functions")
